@@ -108,6 +108,18 @@ def _unq(s):
     return s.replace('\\"', '"').replace('\\\\', '\\')
 
 
+def vacuity(chk, r, name, dead_ok=()):
+    """Per-action coverage of a machine model (TLC -coverage 1): recorded in the evidence; an action of the next-state relation
+    that was never taken (other than those named in dead_ok, which DESIGN.md explains) means the invariants were never
+    exercised on it - a failure of the machinery, not of the property."""
+    if not r.coverage:
+        return
+    chk.notes.setdefault('action_coverage', {})[name] = {a: {'taken': g, 'distinct': d} for a, (g, d) in r.coverage.items()}
+    dead = sorted(a for a, (g, d) in r.coverage.items() if g == 0 and a not in dead_ok)
+    if dead:
+        raise TLCError('vacuity: action(s) %s of %s are never taken in the explored model' % (', '.join(dead), name))
+
+
 def must(r, what=''):
     """Raise a machinery error unless TLC finished cleanly."""
     if not r.ok:
